@@ -178,13 +178,109 @@ func genSwarm(r *rand.Rand, id int, maxPieces int) swarmCfg {
 // ---------------------------------------------------------------------------
 // Harness pieces at the outer boundary.
 
-type fakeMetaInfoClient struct{ mi *core.MetaInfo }
+type fakeMetaInfoClient struct {
+	mi    *core.MetaInfo
+	pacer *core.MetaInfo // optional: the agent's private pacer torrent
+}
 
 func (c fakeMetaInfoClient) Download(ns string, d core.Digest) (*core.MetaInfo, error) {
-	if d != c.mi.Digest() {
-		return nil, metainfoclient.ErrNotFound
+	if d == c.mi.Digest() {
+		return c.mi, nil
 	}
-	return c.mi, nil
+	if c.pacer != nil && d == c.pacer.Digest() {
+		return c.pacer, nil
+	}
+	return nil, metainfoclient.ErrNotFound
+}
+
+// ---------------------------------------------------------------------------
+// Counted announce-progress rule (no wall clock). Every agent that stays also
+// "downloads" a private pacer torrent nobody seeds; its announces are the
+// agent's own announce ticks made visible (the announce queue serves its
+// torrents round-robin, one per tick). If the blob's torrent is incomplete, has
+// no active connection, has no announce in flight, and the pacer torrent
+// completes announceK announces in a row without the blob's torrent being
+// announced once, the blob's torrent has fallen out of the announce queue: the
+// agent can never learn about another peer again.
+
+const announceK = 12
+
+type progressMon struct {
+	mu        sync.Mutex
+	agent     string
+	hashA     string
+	hashP     core.InfoHash
+	active    int  // active conns of the blob's torrent (add/drop events)
+	inflightA int  // blob announces called and not yet returned
+	done      bool // blob torrent completed / cancelled
+	aCalls    int
+	pReturns  int
+	streak    int // pacer announce returns in a row under the rule's premises
+	witness   map[string]interface{}
+}
+
+func (m *progressMon) event(e *networkevent.Event) {
+	if e.Torrent != m.hashA {
+		return
+	}
+	m.mu.Lock()
+	defer m.mu.Unlock()
+	switch e.Name {
+	case networkevent.AddActiveConn:
+		m.active++
+		m.streak = 0
+	case networkevent.DropActiveConn:
+		m.active--
+	case networkevent.TorrentComplete, networkevent.TorrentCancelled:
+		m.done = true
+	}
+}
+
+type countingAnnouncer struct {
+	announceclient.Client
+	m     *progressMon
+	hashA core.InfoHash
+}
+
+func (c *countingAnnouncer) Announce(d core.Digest, h core.InfoHash, complete bool, version int) ([]*core.PeerInfo, time.Duration, error) {
+	m := c.m
+	if h == c.hashA {
+		m.mu.Lock()
+		m.inflightA++
+		m.aCalls++
+		m.streak = 0
+		m.mu.Unlock()
+	}
+	peers, iv, err := c.Client.Announce(d, h, complete, version)
+	m.mu.Lock()
+	switch {
+	case h == c.hashA:
+		m.inflightA--
+		m.streak = 0
+	case h == m.hashP:
+		m.pReturns++
+		if !m.done && m.active == 0 && m.inflightA == 0 {
+			m.streak++
+			if m.streak >= announceK && m.witness == nil {
+				m.witness = map[string]interface{}{
+					"signature": "torrent-dropped-out-of-announce-rotation", "peer": m.agent,
+					"pacer_announces_in_a_row_without_a_blob_announce": m.streak,
+					"blob_announces_so_far": m.aCalls, "pacer_announces_so_far": m.pReturns,
+					"premises": "blob torrent incomplete, 0 active conns, no blob announce in flight at each of those pacer announces",
+				}
+			}
+		} else {
+			m.streak = 0
+		}
+	}
+	m.mu.Unlock()
+	return peers, iv, err
+}
+
+func (m *progressMon) stuckWitness() map[string]interface{} {
+	m.mu.Lock()
+	defer m.mu.Unlock()
+	return m.witness
 }
 
 // originDirectory stands in for the tracker's origin-cluster lookup: it hands
@@ -213,9 +309,17 @@ type eventCounter struct {
 	received atomic.Int64
 	total    *atomic.Int64
 	notify   chan struct{}
+	pm       *progressMon
+	hashA    string
 }
 
 func (e *eventCounter) Produce(ev *networkevent.Event) {
+	if e.pm != nil {
+		e.pm.event(ev)
+	}
+	if e.hashA != "" && ev.Torrent != e.hashA {
+		return // the pacer torrent never receives anything; keep counts per blob
+	}
 	if ev.Name == networkevent.ReceivePiece {
 		e.received.Add(1)
 		e.total.Add(1)
@@ -428,6 +532,7 @@ type peer struct {
 	stopped atomic.Bool
 	result  chan error // Download result (agents)
 	mon     *writeMonitor
+	pm      *progressMon
 }
 
 func freePort() int {
@@ -479,7 +584,7 @@ func (s *swarm) schedConfig(pipeline, originPipeline, maxConns int, noEndgame bo
 	}
 }
 
-func (s *swarm) newScheduler(cfg scheduler.Config, ta storage.TorrentArchive, origin bool, evc networkevent.Producer) (scheduler.Scheduler, core.PeerContext, error) {
+func (s *swarm) newScheduler(cfg scheduler.Config, ta storage.TorrentArchive, origin bool, evc networkevent.Producer, wrapAC ...func(announceclient.Client) announceclient.Client) (scheduler.Scheduler, core.PeerContext, error) {
 	var lastErr error
 	for try := 0; try < 8; try++ {
 		pid, err := core.RandomPeerID()
@@ -490,6 +595,9 @@ func (s *swarm) newScheduler(cfg scheduler.Config, ta storage.TorrentArchive, or
 		var ac announceclient.Client = announceclient.Disabled()
 		if !origin {
 			ac = announceclient.New(pctx, hashring.NoopPassiveRing(hostlist.Fixture(s.tracker)), nil)
+			for _, w := range wrapAC {
+				ac = w(ac)
+			}
 		}
 		sc, err := scheduler.VerifC14NewScheduler(cfg, ta, tally.NoopScope, pctx, ac, evc, !origin)
 		if err == nil {
@@ -599,20 +707,46 @@ func (s *swarm) startAgent(i int) (*peer, error) {
 	if err != nil {
 		return nil, err
 	}
-	var ta storage.TorrentArchive = agentstorage.NewTorrentArchive(tally.NoopScope, cads, fakeMetaInfoClient{s.mi})
+	mic := fakeMetaInfoClient{mi: s.mi}
 	var mon *writeMonitor
+	var pm *progressMon
+	var pacerDigest core.Digest
+	if a.StopAfter < 0 {
+		// private pacer torrent: a tiny blob only this agent ever asks for
+		pb := []byte(fmt.Sprintf("pacer/%d/%s", s.cfg.ID, name))
+		pd, err := core.NewDigester().FromBytes(pb)
+		if err != nil {
+			return nil, err
+		}
+		pmi, err := core.NewMetaInfo(pd, bytes.NewReader(pb), 64)
+		if err != nil {
+			return nil, err
+		}
+		mic.pacer, pacerDigest = pmi, pd
+		pm = &progressMon{agent: name, hashA: s.mi.InfoHash().String(), hashP: pmi.InfoHash()}
+	}
+	var ta storage.TorrentArchive = agentstorage.NewTorrentArchive(tally.NoopScope, cads, mic)
 	if a.StopAfter < 0 {
 		mon = &writeMonitor{agent: name, blob: s.blob, pl: int64(s.cfg.PieceLength), writes: map[int][]writeRec{}}
 		ta = &watchArchive{TorrentArchive: ta, m: mon}
 	}
 	cfg := s.schedConfig(a.PipelineLimit, a.OriginPipelineLimit, a.MaxConns, a.DisableEndgame, a.Policy)
-	evc := &eventCounter{total: &s.total, notify: make(chan struct{}, 1)}
-	sc, pctx, err := s.newScheduler(cfg, ta, false, evc)
+	evc := &eventCounter{total: &s.total, notify: make(chan struct{}, 1), pm: pm, hashA: s.mi.InfoHash().String()}
+	var wraps []func(announceclient.Client) announceclient.Client
+	if pm != nil {
+		wraps = append(wraps, func(c announceclient.Client) announceclient.Client {
+			return &countingAnnouncer{Client: c, m: pm, hashA: s.mi.InfoHash()}
+		})
+	}
+	sc, pctx, err := s.newScheduler(cfg, ta, false, evc, wraps...)
 	if err != nil {
 		return nil, err
 	}
-	p := &peer{name: name, sched: sc, pctx: pctx, cads: cads, dir: d, events: evc, result: make(chan error, 1), mon: mon}
+	p := &peer{name: name, sched: sc, pctx: pctx, cads: cads, dir: d, events: evc, result: make(chan error, 1), mon: mon, pm: pm}
 	s.peers = append(s.peers, p)
+	if pm != nil {
+		go func() { _ = sc.Download(namespace, pacerDigest) }() // never completes; ends with the scheduler
+	}
 	go func() { p.result <- sc.Download(namespace, s.digest) }()
 	return p, nil
 }
@@ -753,6 +887,12 @@ func runSwarm(run *ev.Run, t *testing.T, cfg swarmCfg, r *rand.Rand, bound time.
 			if w := p.mon.stuckWitness(); w != nil {
 				res.Stuck = true
 				res.Violations = append(res.Violations, w)
+			}
+			if p.pm != nil {
+				if w := p.pm.stuckWitness(); w != nil {
+					res.Stuck = true
+					res.Violations = append(res.Violations, w)
+				}
 			}
 		}
 		if res.Stuck {
